@@ -8,6 +8,8 @@ use crate::tape::Tape;
 pub enum Scenario {
     T1(T1Profile),
     T2(T2Profile),
+    /// C07 cut-point sweep over one scenario (bool: quick density)
+    T1Sweep(T1Profile, bool),
 }
 
 impl Scenario {
@@ -15,11 +17,13 @@ impl Scenario {
         match self {
             Scenario::T1(p) => p.name,
             Scenario::T2(p) => p.name,
+            Scenario::T1Sweep(p, _) => p.name,
         }
     }
     pub fn run(&self, tape: Tape, want_sample: bool) -> RunOut {
         match self {
-            Scenario::T1(p) => run_t1(p, tape, &T1Opts { want_sample, keep_log: true }),
+            Scenario::T1(p) => run_t1(p, tape, &T1Opts { want_sample, keep_log: true, fault_override: None }),
+            Scenario::T1Sweep(p, quick) => crate::t1::run_t1_sweep(p, tape, want_sample, *quick),
             Scenario::T2(p) => run_t2(p, tape, want_sample),
         }
     }
@@ -27,6 +31,7 @@ impl Scenario {
         match self {
             Scenario::T1(_) => "T1 real client <-> real server",
             Scenario::T2(_) => "T2 real endpoint <-> scripted peer",
+            Scenario::T1Sweep(..) => "T1 real client <-> real server, every cut point of one scenario",
         }
     }
 }
@@ -97,6 +102,52 @@ pub fn t1_shutdown() -> T1Profile {
     p
 }
 
+pub fn t1_sweep(name: &'static str) -> T1Profile {
+    let mut p = T1Profile::base(name);
+    p.cooperative = false;
+    p.max_streams = 4;
+    p.work.max_body = 3000;
+    p.work.aborts = true;
+    p.work.wait_reset = true;
+    p.work.stop_reading = true;
+    p.work.max_header_fields = 3;
+    p.work.header_budget = 400;
+    p.pings = true;
+    p.idle_check = false;
+    p.tiny_buffers = false;
+    p
+}
+
+pub fn t1_capacity() -> T1Profile {
+    let mut p = T1Profile::base("t1-capacity");
+    p.max_streams = 10;
+    p.work.max_body = 6000;
+    p.work.aborts = true;
+    p.work.stop_reading = true;
+    p.work.any_code = true;
+    p.settings_changes = true;
+    p
+}
+
+pub fn t1_inject() -> T1Profile {
+    let mut p = T1Profile::base("t1-inject");
+    p.inject = true;
+    p.work.aborts = true;
+    p.work.stop_reading = true;
+    p.work.any_code = true;
+    p.settings_changes = true;
+    p.pings = true;
+    p.many_clones = true;
+    p
+}
+
+pub fn t1_inject_fatal() -> T1Profile {
+    let mut p = t1_fatal();
+    p.name = "t1-inject-fatal";
+    p.inject = true;
+    p
+}
+
 pub fn t1_push() -> T1Profile {
     let mut p = T1Profile::base("t1-push");
     p.work.pushes = true;
@@ -124,6 +175,11 @@ pub fn all_scenarios() -> Vec<Scenario> {
         Scenario::T1(t1_shutdown()),
         Scenario::T1(t1_conc()),
         Scenario::T1(t1_headers()),
+        Scenario::T1(t1_capacity()),
+        Scenario::T1(t1_inject()),
+        Scenario::T1(t1_inject_fatal()),
+        Scenario::T1Sweep(t1_sweep("t1-sweep-quick"), true),
+        Scenario::T1Sweep(t1_sweep("t1-sweep-full"), false),
     ]
     .into_iter()
     .chain(t2_all().into_iter().map(Scenario::T2))
@@ -186,6 +242,15 @@ pub fn entries_for(prop: &str) -> Vec<Entry> {
         ],
         "C05" => vec![e(t1(t1_conc()), 6000, 200_000), e(t1(t1_aborts()), 3000, 100_000), e(t1(t1_coop_settings()), 2000, 60_000)],
         "C06" => vec![e(t1(t1_coop()), 5000, 200_000), e(t1(t1_coop_settings()), 5000, 200_000), e(t1(t1_aborts()), 3000, 100_000), e(t1(t1_conc()), 1500, 50_000), e(t1(t1_push()), 1500, 50_000)],
+        "C07" => vec![
+            Entry { scenario: Scenario::T1Sweep(t1_sweep("t1-sweep-quick"), true), quick: 40, thorough: 0 },
+            Entry { scenario: Scenario::T1Sweep(t1_sweep("t1-sweep-full"), false), quick: 0, thorough: 400 },
+            e(t1(t1_fatal()), 6000, 200_000),
+            e(t1(t1_shutdown()), 3000, 100_000),
+        ],
+        "C15" => vec![e(t1(t1_shutdown()), 10_000, 300_000), e(t1(t1_fatal()), 2000, 60_000)],
+        "C16" => vec![e(t1(t1_capacity()), 8000, 250_000), e(t1(t1_coop_settings()), 3000, 100_000), e(t1(t1_aborts()), 3000, 100_000), e(t1(t1_conc()), 2000, 60_000)],
+        "C20" => vec![e(t1(t1_inject()), 12_000, 400_000), e(t1(t1_inject_fatal()), 4000, 100_000)],
         "C08" => vec![e(t2s("t2-corrupt"), 8000, 300_000), e(t2s("t2-violation"), 3000, 100_000), e(t2s("t2-flood"), 1500, 40_000), e(t2s("t2-hpack"), 2000, 60_000), e(t2s("t2-malformed"), 2000, 60_000), e(t1(t1_fatal()), 2000, 60_000)],
         "C09" => vec![e(t2s("t2-violation"), 8000, 300_000), e(t2s("t2-legal"), 6000, 200_000), e(t1(t1_aborts()), 3000, 100_000), e(t1(t1_coop()), 2000, 60_000), e(t1(t1_push()), 1500, 50_000)],
         "C11" => vec![e(t2s("t2-hpack"), 12000, 400_000)],
